@@ -139,7 +139,8 @@ class WeightedProbabilityBasedSquaredError(ProbabilityBasedLossFunction):
         self, mode_weight: str, data: List[Tuple[int, np.ndarray]]
     ) -> None:
         if mode_weight == "identity":
-            pass
+            # drop the weights of an earlier configuration
+            self.set_weight_matrices(None)
         elif mode_weight == "custom":
             self.set_weight_matrices(self.option.weights)
         elif (
